@@ -61,6 +61,29 @@ M = [
   '''                if ( !isProbability(O, observations_[a].row(s1)) )
                     throw std::invalid_argument("Input observation matrix does not contain valid probabilities.");
             }''', '''            }'''),
+ ('R1 SparseModel(const M&) validates the row as READ instead of the row as STORED', 'include/AIToolbox/MDP/SparseModel.hpp',
+  '''                if ( checkDifferentSmall(0.0, r) ) rewards_.coeffRef(s, a) += r * p;
+            }
+            if ( checkDifferentSmall(1.0, transitions_[a].row(s).sum()) )''', '''                if ( checkDifferentSmall(0.0, r) ) rewards_.coeffRef(s, a) += r * p;
+            }
+            double readSum = 0.0;
+            for ( size_t s1 = 0; s1 < S; ++s1 ) readSum += model.getTransitionProbability(s, a, s1);
+            if ( checkDifferentSmall(1.0, readSum) )'''),
+ ('R2 MaximumLikelihoodModel constructor stores the discount without setDiscount', 'include/AIToolbox/MDP/MaximumLikelihoodModel.hpp',
+  '''    {
+        setDiscount(discount);
+        rewards_.setZero();''', '''    {
+        discount_ = discount;
+        rewards_.setZero();'''),
+ ('R3 CooperativeThompsonModel::setDiscount assigns before it validates', 'src/Factored/MDP/CooperativeThompsonModel.cpp',
+  '''        if ( !(d > 0.0 && d <= 1.0) ) throw std::invalid_argument("Discount parameter must be in (0,1]");
+        discount_ = d;''', '''        discount_ = d;
+        if ( !(d > 0.0 && d <= 1.0) ) throw std::invalid_argument("Discount parameter must be in (0,1]");'''),
+ ('R4 SparseMaximumLikelihoodModel guard accepts a discount of 0', 'include/AIToolbox/MDP/SparseMaximumLikelihoodModel.hpp',
+  'if ( !(d > 0.0 && d <= 1.0) ) throw', 'if ( !(d >= 0.0 && d <= 1.0) ) throw'),
+ ('R5 Model(const M&) reads the reward of the self-transition for every successor', 'include/AIToolbox/MDP/Model.hpp',
+  'rewards_    (s, a)     += model.getExpectedReward       (s, a, s1) * transitions_[a](s, s1);',
+  'rewards_    (s, a)     += model.getExpectedReward       (s, a, s) * transitions_[a](s, s1);'),
  ('M12 checkTag no longer reports duplicates', 'src/Factored/Utils/Core.cpp',
   'if (tagV == previousV)    return std::make_pair(TagErrors::Duplicates, t);', ''),
 ]
